@@ -216,7 +216,7 @@ func transferClose(c rwc, closer bool, out, wantIn []byte, rbuf int, r *hx.Rng, 
 	}
 	select {
 	case <-closed:
-	case <-time.After(20 * time.Second):
+	case <-time.After(hx.D(20 * time.Second)):
 		return false, true
 	}
 	time.Sleep(40 * time.Millisecond) // let the last record and the close_notify alert arrive together
@@ -346,7 +346,7 @@ func newEnv(a caseA) *pairEnv {
 }
 
 func runPair(a caseA, e *pairEnv, k int, capture bool) (res runRes) {
-	deadline := 25 * time.Second
+	deadline := hx.D(25 * time.Second) // 10x when the case is re-run alone
 	seed := a.seed + 7919*k
 	c2s, s2c := payloadBytes(seed, 1, a.c2s), payloadBytes(seed, 2, a.s2c)
 	closed := make(chan struct{})
@@ -376,7 +376,7 @@ func runPair(a caseA, e *pairEnv, k int, capture bool) (res runRes) {
 		ln.(*net.TCPListener).SetDeadline(time.Now().Add(deadline))
 		raw, er := ln.Accept()
 		if er != nil {
-			s.err = "accept: " + er.Error()
+			s.err, s.timeout = "accept: "+er.Error(), isTimeout(er)
 			return
 		}
 		defer raw.Close()
@@ -1038,6 +1038,31 @@ func runAll(cases []string, pre map[int]string, o *hx.Out, withCases bool) {
 	}
 }
 
+// timedOut: HANG (hx.Guard), class H of the first connection, or an H among the further connections
+func timedOut(obs string) bool {
+	if hx.TimedOut(obs) {
+		return true
+	}
+	f := strings.Fields(obs)
+	if len(f) >= 3 && f[1] == "ok" && f[2] == "H" {
+		return true
+	}
+	if len(f) >= 10 && f[2] == "C" {
+		depth := 0
+		for _, ch := range f[9] {
+			switch {
+			case ch == '[':
+				depth++
+			case ch == ']':
+				depth--
+			case depth == 0 && ch == 'H':
+				return true
+			}
+		}
+	}
+	return false
+}
+
 func main() {
 	if devnull, err := os.OpenFile(os.DevNull, os.O_WRONLY, 0); err == nil {
 		os.Stdout = devnull
@@ -1050,6 +1075,7 @@ func main() {
 		o := hx.NewOut(os.Args[4], os.Args[5])
 		cases, pre := gen(seed, os.Args[3])
 		runAll(cases, pre, o, true)
+		o.RetryIf(timedOut, runCase) // a case that ran out of time in the parallel pass is re-run alone with 10x deadlines
 		o.Close()
 		return
 	}
@@ -1058,6 +1084,7 @@ func main() {
 		loadStd()
 		o := hx.NewOut(os.DevNull, os.Args[3])
 		runAll(hx.ReadLines(os.Args[2]), nil, o, false)
+		o.RetryIf(timedOut, runCase)
 		o.Close()
 		return
 	}
